@@ -39,6 +39,14 @@ def plan(tier):
                 tag = "+".join(st for _, st in sub)
                 p.append((S.T2(own={w: sub}).variant(f"/own({w})={tag}"), 0 if q else 1, 0.3))
     p.append((S.T3(shared=[("image1_vm1", "install"), ("image1_vm1", "customize")], own={"net2": [("image1_vm1", "connect")]}).variant("/shared=vm1.install+customize,own(net2)=connect"), 1, 0.5))
+    # retry settings under which an in-flight try of another worker is neither a reason to run nor to rerun
+    p.append((S.T2(params={"max_tries": 2, "rerun_status": "fail"}).variant("/mt=2,rerun=fail"), 1 if q else 2, 1))
+    p.append((S.T2(params={"max_tries": 2}).variant("/mt=2"), 1 if q else 2, 1))
+    # replay of a previous job whose states were cleaned up / partly kept / produced elsewhere
+    p.append((S.replay_of(S.T2(), "all passed, pools empty"), 1 if q else 2, 1))
+    p.append((S.replay_of(S.T2(), "all passed, shared=install+customize", shared=S.VM1_CHAIN[:2]), 1, 1))
+    p.append((S.replay_of(S.T2(), "all passed, own(net1)=chain", own={"net1": S.VM1_CHAIN}), 1, 1))
+    p.append((S.replay_of(S.T2(), "setup failed before, pools empty", status_of=lambda n: "FAIL" if "customize" in n else "PASS"), 1, 1))
     p.append((S.G1(), 0 if q else 1, 3))
     p.append((S.G2(), 0 if q else 1, 3))
     return p
@@ -50,7 +58,7 @@ def matcher(known, v):
 
 
 def run(tier, seed):
-    return checkbase.run_e1("C01", tier, seed, TECH, plan(tier), monitors.c01, 240, 1800,
+    return checkbase.run_e1("C01", tier, seed, TECH, (lambda: plan(tier)), monitors.c01, 240, 1800,
                             "executions = complete runs of the real traversal, one per choice sequence (durations, PASS/FAIL outcomes = placement of failing tests, "
                             "tie order) with at most k non-default choices, from each enumerated initial population of the shared and own pools; "
                             "distinct = distinct (scenario incl. initial pools, (worker,test,status) sequence)",
